@@ -100,6 +100,43 @@ Example C06_s2lp :
   a_cbits (getter_of BoBE BiLSB0 (widen f)) = 32.
 Proof. vm_compute. repeat split; try discriminate; reflexivity. Qed.
 
+(* "Converting a field set to and from its byte array is the identity on the bytes, the bitwise operators act on all
+   underlying bits": the constant part of every emitted field set (`bits: [u8; N]`, the two `From` impls, BitAnd / BitOr /
+   BitXor / Not looping over the N bytes) as modelled in FieldSetGen.v (fs_from_bytes .. fs_not), compared with the
+   compiled field sets on random arrays by the L2 phase of the check (queries QId / QOps). *)
+Theorem C06_bytes_roundtrip : forall bs, fs_to_bytes (fs_from_bytes bs) = bs.
+Proof. exact fs_bytes_roundtrip. Qed.
+
+Theorem C06_binops_act_on_all_bits : forall a b i j,
+  List.length a = List.length b -> (i < List.length a)%nat ->
+  Z.testbit (nth i (fs_and a b) 0) j = Z.testbit (nth i a 0) j && Z.testbit (nth i b 0) j /\
+  Z.testbit (nth i (fs_or a b) 0) j = Z.testbit (nth i a 0) j || Z.testbit (nth i b 0) j /\
+  Z.testbit (nth i (fs_xor a b) 0) j = xorb (Z.testbit (nth i a 0) j) (Z.testbit (nth i b 0) j) /\
+  List.length (fs_and a b) = List.length a /\ List.length (fs_or a b) = List.length a /\
+  List.length (fs_xor a b) = List.length a.
+Proof. exact fs_binops_act_on_all_bits. Qed.
+
+Theorem C06_not_acts_on_all_bits : forall a i j,
+  Forall (fun x => 0 <= x < 256) a -> (i < List.length a)%nat -> 0 <= j < 8 ->
+  Z.testbit (nth i (fs_not a) 0) j = negb (Z.testbit (nth i a 0) j) /\
+  0 <= nth i (fs_not a) 0 < 256 /\ List.length (fs_not a) = List.length a.
+Proof. exact fs_not_acts_on_all_bits. Qed.
+
+Example C06_bitops_example :
+  fs_and [12; 255] [10; 1] = [8; 1] /\ fs_or [12; 0] [10; 1] = [14; 1] /\ fs_xor [12; 255] [10; 1] = [6; 254] /\
+  fs_not [0; 255; 165] = [255; 0; 90].
+Proof. vm_compute. repeat split; reflexivity. Qed.
+
+(* The ops function the emitter writes for an accessor, TRANSLATED from the two order tables of
+   field_set_transform.rs (get_read_function / get_write_function) on every build: for each of load / store and each
+   effective (byte order, bit order) there is exactly one arm, and it names `<load|store>_<lsb0|msb0>` with the
+   byte-order marker `LE` / `BE` of the effective orders — the functions whose bit-level meaning C01 / C02 prove. *)
+From DD Require GenOps.
+Theorem C06_ops_choice_from_source : forall kind bo bi, In kind ["load"; "store"]%string ->
+  GenOps.ops_lookup kind bo bi = [GenOps.spec_ops kind bo bi].
+Proof. exact GenOps.ops_choice_spec. Qed.
+
+
 Print Assumptions C06_emitted_sets_are_the_declared_ones.
 Print Assumptions C06_effective_byte_order.
 Print Assumptions C06_le_fallback_only_for_small_sets.
@@ -109,3 +146,7 @@ Print Assumptions C06_carrier_minimal.
 Print Assumptions C06_carrier_sign_and_bool.
 Print Assumptions C06_getter_iff_readable.
 Print Assumptions C06_setter_iff_writable.
+Print Assumptions C06_ops_choice_from_source.
+Print Assumptions C06_bytes_roundtrip.
+Print Assumptions C06_binops_act_on_all_bits.
+Print Assumptions C06_not_acts_on_all_bits.
